@@ -7,6 +7,7 @@ of this property were written against (`Tea.Doc`). Written by checklib/mkbridges
 -/
 namespace Tea.Props.Bridge.C12
 
+theorem locks : Tea.Gen.fact_locks = Tea.Doc.fact_locks := rfl
 theorem order_Program_Run : Tea.Gen.fact_order_Program_Run = Tea.Doc.fact_order_Program_Run := rfl
 theorem order_Program_disableMouse : Tea.Gen.fact_order_Program_disableMouse = Tea.Doc.fact_order_Program_disableMouse := rfl
 theorem el_case_enterAltScreenMsg : Tea.Gen.fact_el_case_enterAltScreenMsg = Tea.Doc.fact_el_case_enterAltScreenMsg := rfl
